@@ -18,10 +18,12 @@ if TYPE_CHECKING:
 
 
 DEFAULT_INNER_TAG_MAP = {
-    "for": ["break", "continue"],
+    "for": ["break", "continue", "else"],
+    "tablerow": ["break", "continue"],
     "if": ["else", "elsif"],
-    "case": ["when"],
+    "case": ["when", "else"],
     "unless": ["else", "elsif"],
+    "translate": ["plural"],
 }
 
 
